@@ -15,13 +15,13 @@ CONSTANTS
   TsAudiosRtsp = {"none", "aac44100", "aac48000", "pcma8000"}
   TsAudiosOther = {"none", "aac44100"}
   TsRtspCls = {"single", "fu"}
-  TsPsPk = {"p1", "p3", "p7", "p8", "p9"}
+  TsPsPk = {"p1", "p3", "p7", "p8", "p9", "p11"}
   TsCustFmt = {"annexb"}
   TsS0s = {65533}
   Win = 3
   MaxPert = 1
   RtspCls = {"single", "agg", "fu"}
-  PsPk = {"p1", "p2", "p3", "p4", "p5", "p6"}
+  PsPk = {"p1", "p2", "p3", "p4", "p5", "p6", "p10", "p12"}
   CustFmt = {"annexb", "annexb3", "avcc"}
 INVARIANTS DesignConforms
 ACTION_CONSTRAINT EmitS
